@@ -48,7 +48,7 @@ func runC14(c *core.Check) {
 	{
 		ln := "5"
 		if c.Tier == "thorough" {
-			ln = "7"
+			ln = "6"
 		}
 		r := core.TLCRun{Module: "MC_C14", Consts: map[string]string{"MaxN": ln, "StartKind": "\"initial\""}, Timeout: minutes(30)}
 		r.ConstSubst = map[string]string{"Alphabet": "Clusters"}
